@@ -234,7 +234,8 @@ def rule_canon(ctx: Ctx) -> RuleResult:
     flow = flow_of(f.node)
     cfg = cfg_of(f.node)
     sid_p = f.params[0]
-    typed_rets = [r for r in _rets(f) if isinstance(r.value, ast.Tuple) and len(r.value.elts) == 2 and not isinstance(r.value.elts[1], ast.Constant)]
+    typed_rets = [r for r in _rets(f) if any(isinstance(v, ast.Tuple) and len(v.elts) == 2 and not isinstance(v.elts[1], ast.Constant)
+                                             for v in _ret_values(flow, r))]
     ok = False
     for t in cfg.nodes:
         if t.kind != "test" or not isinstance(t.ast, ast.If):
@@ -261,6 +262,31 @@ def rule_canon(ctx: Ctx) -> RuleResult:
     else:
         res.ok("resolva anchoring", "templates are anchored without '$'")
     return res
+
+
+def _ret_values(flow, r: ast.Return) -> List[ast.AST]:
+    """the expressions a return statement may hand out (conditional expressions and local names unfolded)"""
+    out, todo, seen = [], [r.value], set()
+    at = flow.node_of(r)
+    while todo:
+        v = todo.pop()
+        if v is None or id(v) in seen:
+            continue
+        seen.add(id(v))
+        if isinstance(v, ast.IfExp):
+            todo += [v.body, v.orelse]
+        elif isinstance(v, ast.BoolOp):
+            todo += list(v.values)
+        elif isinstance(v, ast.Name) and flow.is_local(v.id):
+            ds = [d for d in flow.defs_reaching(at.id, v.id)] if at is not None else []
+            vals = [d.value for d in ds if d.kind == "assign" and d.value is not None]
+            if vals and len(vals) == len(ds):
+                todo += vals
+            else:
+                out.append(v)
+        else:
+            out.append(v)
+    return out
 
 
 def _helper_formats(ctx: Ctx, f: FunctionInfo, atom) -> bool:
